@@ -45,6 +45,28 @@ type TextAttr struct {
 	LetterSpacing string   `xml:"letter-spacing,attr,omitempty"`
 }
 
+// overriddenBy returns a with every attribute that own sets replaced by
+// own's value: an element's own attributes (the fill of a `clear` rectangle,
+// the stroke of a `gridn` group) win over the style it is pushed under.
+func (a Attr) overriddenBy(own Attr) Attr {
+	if own.Fill != "" {
+		a.Fill = own.Fill
+	}
+	if own.Stroke != "" {
+		a.Stroke = own.Stroke
+	}
+	if own.StrokeWidth != nil {
+		a.StrokeWidth = own.StrokeWidth
+	}
+	if own.StrokeLinecap != "" {
+		a.StrokeLinecap = own.StrokeLinecap
+	}
+	if own.StrokeDashArray != "" {
+		a.StrokeDashArray = own.StrokeDashArray
+	}
+	return a
+}
+
 type (
 	attrSetter     interface{ setAttr(a Attr) }
 	textAttrSetter interface{ setTextAttr(ta TextAttr) }
@@ -58,7 +80,7 @@ type Group struct {
 	Elements []any `xml:""` // circle, rect, ...
 }
 
-func (g *Group) setAttr(a Attr)          { g.Attr = a }
+func (g *Group) setAttr(a Attr)          { g.Attr = a.overriddenBy(g.Attr) }
 func (g *Group) setTextAttr(ta TextAttr) { g.TextAttr = ta }
 
 // Line represents an SVG line element <line>.
@@ -94,7 +116,7 @@ type Rect struct {
 	Height string  `xml:"height,attr"`
 }
 
-func (r *Rect) setAttr(a Attr) { r.Attr = a }
+func (r *Rect) setAttr(a Attr) { r.Attr = a.overriddenBy(r.Attr) }
 
 // Polyline represents an SVG polyline element <polyline>.
 type Polyline struct {
